@@ -273,4 +273,4 @@ def run(ctx, tier, res, tag=''):
 def main(tier, seed):
     from ..ctx import run_all_configs
     res = Result('C07', tier, 'proof', seed)
-    return run_all_configs(run, tier, res)
+    return run_all_configs(run, tier, res, strict=True)
